@@ -14,7 +14,7 @@ import pyvc.driver as d
 from pyvc.universe import Source
 from pyvc.verify import verify_function
 for k in keys:
-    r = verify_function(k, src=Source(), timeout_ms=8000, hard_s=150, jobs=8)
+    r = verify_function(k, src=Source(), timeout_ms=8000, hard_s=150, jobs=int(__import__("os").environ.get("TRY_JOBS", "8")))
     print(k, r.get('status'))
     for o in r.get('obligations', [])[:60]:
         print('  ', o.get('status'), o.get('clause','')[:100], o.get('kind',''))
